@@ -76,7 +76,7 @@ func vUniteSetup(timed bool) *vUniteEnv {
 	}
 	vOnSend(d.output, func(v any) {
 		s := v.([]int)
-		vAssert(len(s) > 0, "C03: no output slice is empty")
+		vAssert(len(s) > 0, "C03/C11: no output slice is empty (empty input slices produce nothing)")
 		vAssert(!e.awaiting, "C08: no further output is produced before the previous no-copy slice was released")
 		if opts.NoCopy {
 			e.awaiting = true
